@@ -572,10 +572,11 @@ func c14OddMaps(r *Run, reps int) {
 	data := map[string]interface{}{
 		"Ports": map[int]interface{}{80: "open", 443: 7, 8080: "closed", 22: nil}, "U": map[uint16]interface{}{1: "open", 2: 7, 3: map[string]int{"x": 1}}, "B": map[bool]interface{}{true: "open", false: 7},
 		"F": map[float64]interface{}{1.5: "open", 2.5: 7, math.Inf(1): "x"}, "NS": map[NStr]interface{}{"a": "open", "b": 7, "c": nil}, "IF": map[interface{}]interface{}{"a": "open", 1: 7, true: nil},
+		"IFS": map[interface{}]interface{}{"a": "open", "b": 7, "c": map[string]int{"x": 1}, "d": "closed"}, "IFT": map[interface{}]string{"a": "open", "b": "closed", "c": "x"}, "NIF": map[fmt.Stringer]interface{}{Lvl("a"): "open", Lvl("b"): 7},
 		"I8": map[int8]string{1: "open", 2: "closed"}, "nested": map[string]interface{}{"a": map[int]interface{}{1: "open", 2: 7}, "b": map[int]interface{}{3: 7, 4: "open"}},
 	}
 	exprs := []string{`any Ports as p, s { s == "open" }`, `all Ports as p, s { s != "open" }`, `any Ports as p { p == 80 }`, `any U as _, s { s == open }`, `any U as _, s { s.x == 1 }`, `any B as _, s { s == open }`, `all F as _, s { s == open }`,
-		`any NS as _, s { s == open }`, `all NS as k { k != b }`, `any IF as _, s { s == open }`, `any I8 as _, s { s == open }`, `any nested as _, m { any m as _, s { s == open } }`, `all nested as _, m { all m as _, s { s == open } }`,
+		`any NS as _, s { s == open }`, `all NS as k { k != b }`, `any IF as _, s { s == open }`, `any IFS as _, s { s == open }`, `all IFS as _, s { s != open }`, `any IFS as k, s { s.x == 1 }`, `any IFT as k { k == b }`, `all IFT as _, s { s != open }`, `any NIF as _, s { s == open }`, "open in IFS", "a in IFS", `any I8 as _, s { s == open }`, `any nested as _, m { any m as _, s { s == open } }`, `all nested as _, m { all m as _, s { s == open } }`,
 		"open in Ports", "80 in Ports", "U contains 2", "IF contains a", "Ports is empty", "any Ports as p, s { s == open } or any U as _, s { s == open }"}
 	for _, e := range exprs {
 		ev, err := bexpr.CreateEvaluator(e)
